@@ -92,6 +92,25 @@ func history2() []shapes.N2 {
 	}
 }
 
+// twisted3: twisted extrusions of off-centre profiles through less than a quarter turn (a far corner of the profile
+// sweeps across an axis direction in mid-height, where neither end position bounds it)
+func twisted3() []shapes.N3 {
+	var out []shapes.N3
+	for _, pr := range []struct {
+		w, h, x, y float64
+	}{{2, 20, 2, 0}, {2, 20, -2, 1}, {20, 2, 0, 2}, {3, 3, 4, -3}, {1, 6, 3, 3}} {
+		for _, deg := range []float64{30, 60, 80, -80, 100} {
+			pr, deg := pr, deg
+			name := fmt.Sprintf("TwistExtrude3D[h=4 twist=%gdeg](Box2D(%gx%g)@(%g,%g))", deg, pr.w, pr.h, pr.x, pr.y)
+			out = append(out, shapes.N3{Name: name, Root: "TwistExtrude3D", OperandExact: true, Build: func() (sdf.SDF3, error) {
+				b := sdf.Transform2D(sdf.Box2D(v2.Vec{X: pr.w, Y: pr.h}, 0), sdf.Translate2d(v2.Vec{X: pr.x, Y: pr.y}))
+				return sdf.TwistExtrude3D(b, 4, sdf.DtoR(deg)), nil
+			}})
+		}
+	}
+	return out
+}
+
 func history3() []shapes.N3 {
 	ball := func(x, y, z, r float64) sdf.SDF3 {
 		s, _ := sdf.Sphere3D(r)
@@ -168,7 +187,7 @@ func main() {
 	}
 	// constructor histories: the caller's argument slice is written again after construction (a scratch
 	// slice reused for the next group); the first object must keep its solid inside the box it reports
-	n2, n3 = append(n2, history2()...), append(n3, history3()...)
+	n2, n3 = append(n2, history2()...), append(append(n3, history3()...), twisted3()...)
 	witness := map[string]bool{}
 	if !c.Thorough() {
 		// recorded witnesses of the known findings that only the thorough enumeration contains
